@@ -85,6 +85,13 @@ func runC07(r *core.Run) {
 			}
 		}
 	}
+	// the largest chunk the chunker package accepts (1 MiB) and its neighbours:
+	// the reference importer stores such leaves
+	for _, ch := range []string{"size-1048575", "size-1048576", "rabin-1048574-1048575-1048576"} {
+		for _, L := range []int{1048575, 1048576, 1048577, 2*1048576 + 3} {
+			cases = append(cases, fileCase{Writer: "ours", W: 2, Chunker: ch, L: L, K: 4099, Pattern: "distinct"})
+		}
+	}
 	groups := groupByWidth(cases)
 	var widths []int
 	for w := range groups {
